@@ -1849,7 +1849,7 @@ UNWRAPPERS = ("std::option::Option::<T>::unwrap", "std::option::Option::<T>::exp
               "std::result::Result::<T, E>::expect", "std::result::Result::<T, E>::unwrap_err", "std::result::Result::<T, E>::expect_err")
 
 
-def P1(ctx, rule="P1"):
+def P1(ctx, rule="P1", scope="build"):
     """Panic-site inventory of build(): in the bodies reachable from build()
     there is no arithmetic that can trap (subtraction, multiplication, division,
     shift: only `+ 1` style additions bounded by the node/edge count), no
@@ -1863,6 +1863,16 @@ def P1(ctx, rule="P1"):
         return
     n_arith = n_unwrap = n_slice = 0
     bodies = build_reach(ctx)
+    if scope == "api":
+        # the same inventory over the other public methods of the builder (add_fn(s), add_*_edge(s)): an accepted edge or
+        # function must not be able to panic either
+        ids = set()
+        for f in ctx.fb.fns.values():
+            if (f.get("impl_self") or "").startswith("fn_graph_builder::FnGraphBuilder<") and not f.get("impl_trait") and f.get("public") and \
+                    f["id"] != b0.id and f["id"] in ctx.fb.bodies:
+                ids |= set(m.reach(f["id"]))
+        ids -= {x.id for x in bodies}
+        bodies = [ctx.fb.bodies[i] for i in sorted(ids) if not ctx.fb.is_test_body(ctx.fb.bodies[i])]
     for b in bodies:
         for bb, si, s_ in b.stmts():
             if s_["k"] != "assign" or s_["rv"]["k"] != "binop":
@@ -1884,8 +1894,8 @@ def P1(ctx, rule="P1"):
                     guarded = True
             ctx.check(guarded, rule, "arith|%s|%s" % (short(b.id), op), m.where(b, bb, si),
                       "`%s` in build() is guarded by a comparison of its left operand" % op,
-                      "build() evaluates `%s` on `%s` with no guard on that operand: it traps (debug) or wraps (release) for some graph, e.g. the empty one" % (
-                          op, fmt_expr(a, b)))
+                      "%s evaluates `%s` on `%s` with no guard on that operand: it traps (debug) or wraps (release) for some graph or call sequence, e.g. the empty one" % (
+                          "build()" if scope == "build" else "a public builder method (%s)" % short(b.id), op, fmt_expr(a, b)))
         for bb, t in b.calls():
             p = callee_path(t) or ""
             where = m.where(b, bb)
@@ -1962,7 +1972,10 @@ def P1(ctx, rule="P1"):
                           "build() slices with a computed bound (%s): out of range for some graph" % why)
     ctx.ok(rule, "inventory", m.where(b0), "%d bodies reachable from build(): %d arithmetic ops, %d unwrap/expect sites, %d slice sites inspected" % (
         len(bodies), n_arith, n_unwrap, n_slice))
-    if n_unwrap < 2 or n_arith < 1:
+    if scope == "api":
+        if len(bodies) < 4:
+            ctx.unverifiable(rule, "floor", m.where(b0), "expected the bodies of at least four public builder methods, found %d" % len(bodies))
+    elif n_unwrap < 2 or n_arith < 1:
         ctx.unverifiable(rule, "floor", m.where(b0), "expected >= 2 expect sites and >= 1 addition in build()'s reach, found %d / %d" % (n_unwrap, n_arith))
 
 
